@@ -41,7 +41,7 @@ def cases(tier, seed):
     for model in (['plate'] if tier == 'quick' else ['plate', 'cpanel', 'plate_w']):
         for cores in range(1, 17):
             out.append(dict(kind='threads', model=model, cores=cores, seed=seed))
-    for comp in ['assembly2', 'assembly3', 'bay_b2d', 'bay_t2d', 'bay_plain']:
+    for comp in ['assembly2', 'assembly3', 'bay_b2d', 'bay_t2d', 'bay_plain', 'bay_t2d_b2d', 'bay_b2d_t2d_b2d']:
         out.append(dict(kind='comp', comp=comp, seed=seed))
     return out
 
@@ -169,6 +169,27 @@ def check_panel(case):
                 fails.append(fail('field values depend on the ordering of the points', sig=None, **ctx))
         if len(fails) > 8:
             break
+    # history edge on the same object: the switch force_orthotropic_laminate turned on and off again between field evaluations
+    if cfg['model'] != 'plate_w' and case['pset'] in ('scatter7', 'edges'):
+        c = 1e-3 * np.array([seed_eps(seed, 500 + i) for i in range(ref.size)])
+        keysN, keysE = ('Nxx', 'Nyy', 'Nxy', 'Mxx', 'Myy', 'Mxy'), ('exx', 'eyy', 'gxy', 'kxx', 'kyy', 'kxy')
+
+        def stress_and_strain():
+            st = p.stress(c.copy(), xs=xs_in.copy(order='K'), ys=ys_in.copy(order='K'), NLterms=False)
+            e = p.strain(c.copy(), xs=xs_in.copy(order='K'), ys=ys_in.copy(order='K'), NLterms=False)
+            return np.array([st[k].ravel() for k in keysN]), np.array([np.asarray(e[k]).ravel() for k in keysE])
+        Fo = F.copy()
+        for (i, j) in ((0, 2), (1, 2), (0, 5), (1, 5), (3, 2), (4, 2), (3, 5), (4, 5)):
+            Fo[i, j] = Fo[j, i] = 0.0
+        for flag, Fexp in ((False, F), (True, Fo), (False, F), (True, Fo)):
+            p.force_orthotropic_laminate = flag
+            gN, gE = stress_and_strain()
+            execs += 2
+            if np.abs(gN - Fexp.dot(gE)).max() > 1e-10 * np.abs(Fexp).dot(np.abs(gE)).max():
+                fails.append(fail('stress is not the laminate matrix (force_orthotropic_laminate=%s) times the strains after the switch was '
+                                  'toggled on the same object' % flag, sig=None, case=case))
+                break
+        p.force_orthotropic_laminate = False
     return dict(fails=fails[:10], execs=execs, transitions=execs, nontrivial=1)
 
 
@@ -276,6 +297,16 @@ def check_comp(case):
         elif case['comp'] == 'bay_t2d':
             spb.add_tstiff2d(mf=3, nf=4, bb=0.1, bstack=[0., 90.], bplyt=pan.PLYT, blaminaprop=pan.M6, mb=2, nb=3, **kw)
             regions = [(0, 'base'), (0, 'flange')]
+        elif case['comp'] == 'bay_t2d_b2d':
+            # a T stiffener defined BEFORE a blade stiffener: the global vector holds all blade stiffeners first
+            spb.add_tstiff2d(mf=3, nf=4, bb=0.1, bstack=[0., 90.], bplyt=pan.PLYT, blaminaprop=pan.M6, mb=2, nb=3, **kw)
+            spb.add_bladestiff2d(mf=2, nf=3, **dict(kw, ys=1.0))
+            regions = [(0, 'flange'), (1, 'base'), (1, 'flange')]
+        elif case['comp'] == 'bay_b2d_t2d_b2d':
+            spb.add_bladestiff2d(mf=3, nf=2, **dict(kw, ys=0.0))
+            spb.add_tstiff2d(mf=3, nf=4, bb=0.1, bstack=[0., 90.], bplyt=pan.PLYT, blaminaprop=pan.M6, mb=2, nb=3, **kw)
+            spb.add_bladestiff2d(mf=2, nf=3, **dict(kw, ys=1.0))
+            regions = [(0, 'flange'), (1, 'flange'), (2, 'base'), (2, 'flange')]
         spb.calc_k0(silent=True)
         size = spb.get_size()
         c = 1e-3 * np.array([seed_eps(seed, 1100 + i) for i in range(size)])
@@ -294,14 +325,15 @@ def check_comp(case):
         off = nskin
         stiffs = spb.bladestiff2ds + spb.tstiff2ds
         for si, s in enumerate(stiffs):
-            parts = ([('base', s.base)] if hasattr(s, 'base') and s.base is not None and case['comp'] == 'bay_t2d' else []) + [('flange', s.flange)]
+            parts = ([('base', s.base)] if type(s).__name__ == 'TStiff2D' else []) + [('flange', s.flange)]
             for region, part in parts:
                 nloc = 3 * part.m * part.n
                 cp = c[off:off + nloc]
                 off += nloc
                 if (si, region) not in regions:
                     continue
-                u, v, w, px, py = spb.uvw_stiffener(c.copy(), si, region=region, gridx=4, gridy=3)
+                # 'si' above counts in the order of the global vector; the method takes the index in order of definition
+                u, v, w, px, py = spb.uvw_stiffener(c.copy(), spb.stiffeners.index(s), region=region, gridx=4, gridy=3)
                 execs += 1
                 refp = pan.rp.PanelRef(part.a, part.b, part.m, part.n, {f: getattr(part, f) for f in pan.FLAGS})
                 X, Y = np.meshgrid(np.linspace(0, spb.a, 4), np.linspace(0, part.b, 3))
